@@ -14,7 +14,7 @@ sys.path.insert(0, os.path.join(vf.VERIF, "lib"))
 import c08gen as G  # noqa: E402
 
 META = {
-    "text": "55 Coq theorems (no axioms) over a literal model of dpos libStatus/Status, the chain service's add-block/reorg call sequence (blocks failing at execution or refused by IsBlockValid; crash inside a reorg + marker recovery) and the BP election, for all producer counts and delivery histories with restarts anywhere. FULL: LIB never decreases; a block <= LIB or a reorg forking below it changes nothing; main-chain blocks <= a reported LIB stay forever; LIB, proposals, confirms list on the main chain (confirms list also after any abandoned reorg: Update uses the hash linkage); a proposal needs 2n/3+1 confirming main-chain blocks; two quorums share a correct producer (f < n/3); restart restores the LIB exactly; status saved with the tip = running one; recovery redoes the reorg; ForceResetHeight h keeps the LIB (and its veto) iff LIB <= h; confirmsRequired follows the producer count. PARTIAL: LIB on main chain with failing blocks if no reorg is abandoned midway; producer set a function of the chain if BPCOUNT is constant; agreement if j's chain holds i's LIB block. REFUTED, known, reproduced every run: agreement (F14/b/c, C08:agreement-confirms-unvalidated, C08:agreement-equivocation-partition); restored proposals = online (F45, C08:restart-status-differs-from-online); producer set after a BPCOUNT change (F34, C08:bp-snapshot-bpcount-from-memory); LIB on main chain after an abandoned reorg (F39, C08:lib-off-main-chain-after-failed-reorg). Tie every run: engines on the real dpos.Status, NewStatus+bp.Snapshots+GetRankers and ChainService (recording, persisting stub); every step's outcome, LIB, proposals, confirms list, main chain, producer set, call sequence, saved status hashed and compared with the model by vm_compute; each clause also a direct predicate on the implementation; multi-node disagreement search.",
+    "text": "55 Coq theorems (no axioms) over a literal model of dpos libStatus/Status, the chain service's add-block/reorg call sequence (blocks failing at execution or refused by IsBlockValid; crash inside a reorg + marker recovery) and the BP election, for all producer counts and delivery histories with restarts anywhere. FULL: LIB never decreases; a block <= LIB or a reorg forking below it changes nothing; main-chain blocks <= a reported LIB stay forever; LIB, proposals, confirms list on the main chain (confirms list also after any abandoned reorg: Update uses the hash linkage); a proposal needs 2n/3+1 confirming main-chain blocks; two quorums share a correct producer (f < n/3); restart restores the LIB exactly; status saved with the tip = running one; recovery redoes the reorg; ForceResetHeight h keeps the LIB (and its veto) iff LIB <= h; confirmsRequired follows the producer count. PARTIAL: LIB on main chain with failing blocks if no reorg is abandoned midway; producer set a function of the chain if BPCOUNT is constant; agreement if j's chain holds i's LIB block. REFUTED, known, reproduced every run: agreement (F14/b/c, C08:agreement-confirms-unvalidated, C08:agreement-equivocation-partition); restored proposals = online (F45, C08:restart-status-differs-from-online); producer set after a BPCOUNT change (F34, C08:bp-snapshot-bpcount-from-memory); LIB on main chain after an abandoned reorg (F39, C08:lib-off-main-chain-after-failed-reorg). Tie every run: engines on the real dpos.Status, NewStatus+bp.Snapshots+GetRankers and ChainService (recording, persisting stub); every step's outcome, LIB, proposals, confirms list, main chain, producer set, call sequence, saved status hashed and compared with the model by vm_compute; each clause also a direct predicate on the implementation (incl. gob round trip: every persisted field and the LpbNo the block factory starts from come back as saved); multi-node disagreement search.",
     "note": "Trusted: Coq kernel + vm_compute (no axioms); 60-bit shift-add observation hash; scenario generators; the dpos engine's mirror of ChainService.addBlock/reorg around Status (its call order, incl. the execution-failure and IsBlockValid-refusal sequences, is compared with the real ChainService by the chain engine on every run; block execution and orphans are C05/C07's). Emulated from the source, not executed: the marker recovery sequence after a crash inside a reorg; the life cycle of the in-memory BPCOUNT (InitSystemParams at start, after reorg.rollback and at the end of a reorg; CommitParams after AddSnapshot) - no transaction is executed. Modelled only, no engine: blockfactory's Confirms = no - LpbNo (Protocol.v). gob round trip goes through the real Save/bootLoader. Theorem assumptions: block ids >= 0, delivered blocks are not the genesis block, 0 < n < 21845 for the confirmation counting, f < n/3 for quorum intersection. agreement_under_lock is proved for an abstract rule and does not transfer to the implementation (Dpos/AgreementLock.v, AgreementObstacles.v).",
     "technique": "Coq invariant proofs over executable Gallina models + vm_compute correspondence against the real dpos.Status, "
                  "bp.Snapshots/Cluster, system.GetRankers and chain.ChainService + multi-node disagreement search",
@@ -26,6 +26,7 @@ Z = vf.coq_Z
 
 
 HASH_MASK = (1 << 60) - 1
+UNTAINTED = ("C08:confirms-off-main-chain", "C08:lpbno-not-restored", "C08:restored-status-differs-from-saved")
 CODE_R, CODE_G = 8, 9
 
 
@@ -159,6 +160,26 @@ def direct_predicates(sc, obs, stats):
             continue
         if op[0] in ("S", "R"):
             stats["restarts"] += 1
+            # gob round trip through the chain DB: every field the model's restore reads (Prpsd, Lib, LpbNo)
+            # comes back as it was saved with the chain tip; LpbNo is what BlockFactory.worker starts from
+            # (bsLoader.lpbNo()), so the first block produced after the restart carries Confirms = no - LpbNo
+            if o.get("saved") is not None and o.get("boot") is not None:
+                sv, bt = o["saved"], o["boot"]
+                if sv["lpb"] > 0:
+                    stats["restarts_with_lpb"] = stats.get("restarts_with_lpb", 0) + 1
+                if bt["lpb"] != sv["lpb"] or o.get("boot_lpb", sv["lpb"]) != sv["lpb"]:
+                    bt = dict(bt, lpb=o.get("boot_lpb", bt["lpb"]))
+                    nxt = len(o["main"])
+                    fails.append(("C08:lpbno-not-restored",
+                                  "the status saved with the chain tip had LpbNo %d, the boot loader restores LpbNo %d: the producer's "
+                                  "next block %d would carry Confirms %d instead of %d and re-confirm blocks it already confirmed"
+                                  % (sv["lpb"], bt["lpb"], nxt, nxt - bt["lpb"], nxt - sv["lpb"]),
+                                  {"op_index": k, "saved": sv, "restored": bt}))
+                diff = [f for f in ("lib_no", "lib", "prpsd") if (bt.get(f) or []) != (sv.get(f) or [])]
+                if diff:
+                    fails.append(("C08:restored-status-differs-from-saved",
+                                  "fields %s of the status decoded from the chain DB differ from the status that was saved" % diff,
+                                  {"op_index": k, "saved": sv, "restored": bt}))
             if p is not None:
                 ps = p["state"]
                 if (st["lib_no"], st["lib"]) != (ps["lib_no"], ps["lib"]):
@@ -288,7 +309,7 @@ def direct_predicates(sc, obs, stats):
     if first is not None:
         # (the confirms list is NOT part of that residue: it is rebuilt from the main chain by the
         # Update(old best block) that ends an abandoned reorganisation)
-        fails = [((first[1] if d.get("op_index", -1) >= first[0] and key != "C08:confirms-off-main-chain" else key), what, d)
+        fails = [((first[1] if d.get("op_index", -1) >= first[0] and key not in UNTAINTED else key), what, d)
                  for key, what, d in fails]
     return fails
 
